@@ -573,12 +573,12 @@ func genResub(tier string, seed int64, only string) []*Case {
 		id++
 		cases = append(cases, newCase(id, "kind", "resub", "op", op, "p", p, "var", variant, "cond", cond, "ct", ct,
 			"mode", mode, "cut", cut, "cancel", cancel, "sub", "7", "srcs", shapesString(l)))
-		if mode == "async" && cancel == "-" && cut == "-" && (thorough || id%3 == 0) {
+		if mode == "async" && cancel == "-" && cut == "-" && ((thorough && id%2 == 0) || (!thorough && id%3 == 0)) {
 			id++
 			cases = append(cases, newCase(id, "kind", "resub", "op", op, "p", p, "var", variant, "cond", cond, "ct", ct,
 				"mode", mode, "cut", cut, "cancel", cancel, "sub", "7", "srcs", shapesString(l), "tdslow", "1"))
 		}
-		if op != "Concat" && mode == "sync" && cancel == "-" && (thorough || id%5 == 0) {
+		if op != "Concat" && mode == "sync" && cancel == "-" && ((thorough && id%2 == 0) || (!thorough && id%5 == 0)) {
 			id++
 			cases = append(cases, newCase(id, "kind", "resub", "op", op, "p", p, "var", variant, "cond", cond, "ct", ct,
 				"mode", mode, "cut", cut, "cancel", cancel, "sub", "7", "srcs", shapesString(l), "decoy", "1"))
